@@ -1,4 +1,5 @@
 import Mamba.Basic
+import Mamba.Gen.DawgConsts
 /-!
 Executable model of `dawg/dawg.go` (C12, C14), statement by statement.
 
@@ -184,7 +185,8 @@ def add (db : Builder) (w : List Nat) : Outcome AddResult :=
   else
     match getNode db.heap db.root with
     | .ok rn =>
-      if rn.numWords > 0 ∧ cmpBytes db.lastWord w ≠ -1 then .ok ⟨db, true⟩
+      -- `db.d.numWords > 0 && bytes.Compare(db.lastWord, b) != -1`, both comparisons as they are in the source now
+      if Gen.Dawg.addHasWordFrom ≤ rn.numWords ∧ Gen.Dawg.addOrderReject (cmpBytes db.lastWord w) = true then .ok ⟨db, true⟩
       else
         match commonPrefix db.heap db.root w with
         | .ok (h1, suffix, lastNode) =>
